@@ -85,6 +85,7 @@ type spec struct {
 	N        int  // messages
 	InFlight bool // several messages in flight concurrently
 	Subset   bool // restricted behaviour alphabet (concurrent scenarios)
+	Stop     bool // the handler is stopped (Handler.Stop) while its messages arrive: what the router still takes, it handles
 	C        int
 	DPOR     bool
 }
@@ -100,6 +101,9 @@ func (s spec) name() string {
 	m := "seq"
 	if s.InFlight {
 		m = "inflight"
+	}
+	if s.Stop {
+		m += "+stop"
 	}
 	return fmt.Sprintf("%s/mw%d/N%d/%s", k, s.MW, s.N, m)
 }
@@ -175,8 +179,9 @@ func body(sp spec) {
 		inv[m.UUID] = iv
 		return b, iv
 	}
+	var hnd *message.Handler
 	if sp.WithPub {
-		r.AddHandler("h", "in", sub, "out", pub, func(m *message.Message) ([]*message.Message, error) {
+		hnd = r.AddHandler("h", "in", sub, "out", pub, func(m *message.Message) ([]*message.Message, error) {
 			b, _ := handle(m)
 			return b.Do(m)
 		})
@@ -220,11 +225,14 @@ func body(sp spec) {
 		runDone = true
 	}()
 	<-r.Running()
+	if sp.Stop {
+		go hnd.Stop()
+	}
 	vs.Quiesce()
 
 	// ---- oracle -------------------------------------------------------------------------------
 	ds := sub.Snapshot()
-	if len(ds) != sp.N {
+	if len(ds) != sp.N && !sp.Stop {
 		vs.Fail("intake", "subscriber handed out %d of %d messages at quiescence", len(ds), sp.N)
 	}
 	calls := pub.Snapshot()
@@ -243,6 +251,13 @@ func body(sp spec) {
 	summary := ""
 	for _, d := range ds {
 		iv := inv[d.UUID]
+		if iv == nil && sp.Stop {
+			// the handler was stopped before the router took this message: it was never handled, so nobody settled it
+			if got := hx.SettlementOf(d.Msg); got != "unsettled" {
+				vs.Fail("handled-before-settled", "message %s was %s although the handler chain was never invoked for it (the handler was being stopped)", d.UUID, got)
+			}
+			continue
+		}
 		if iv == nil {
 			vs.Fail("handled", "message %s was handed out but the handler was never invoked", d.UUID)
 			continue
@@ -321,5 +336,8 @@ func init() {
 		}
 		add(reg.Quick, 30, spec{WithPub: withPub, MW: 0, N: 2, InFlight: true, Subset: true, C: cq}, cq+1)
 		add(reg.Thorough, 60, spec{WithPub: withPub, MW: 0, N: 3, InFlight: true, Subset: true, C: 1}, 1)
+		if withPub {
+			add(reg.Quick, 20, spec{WithPub: true, MW: 0, N: 1, Subset: true, Stop: true, C: 0}, 1)
+		}
 	}
 }
